@@ -142,13 +142,15 @@ func (d *Dumper) ValueLit(in any, optFns ...ValueLitOptFn) string {
 	switch tpe.Kind() {
 	case reflect.Ptr:
 		elem := rv.Elem()
+		// the pointed value should always be printed, even an empty struct
+		elemLit := d.ValueLit(elem, append(optFns, SubValue(false))...)
 		switch elem.Kind() {
 		case reflect.Struct, reflect.Map, reflect.Slice, reflect.Array:
 			// only composite literals are addressable
-			return fmt.Sprintf("&(%s)", d.ValueLit(elem, optFns...))
+			return fmt.Sprintf("&(%s)", elemLit)
 		}
 		elemType := d.ReflectTypeLit(elem.Type())
-		return fmt.Sprintf("func(v %s) *%s { return &v }(%s)", elemType, elemType, d.ValueLit(elem, optFns...))
+		return fmt.Sprintf("func(v %s) *%s { return &v }(%s)", elemType, elemType, elemLit)
 	case reflect.Struct:
 		buf := bytes.NewBufferString(d.ReflectTypeLit(tpe))
 		buf.WriteString(`{`)
@@ -196,7 +198,7 @@ func (d *Dumper) ValueLit(in any, optFns ...ValueLitOptFn) string {
 		keyValues := map[string]reflect.Value{}
 
 		for _, key := range rv.MapKeys() {
-			k := d.ValueLit(key, optFns...)
+			k := d.ValueLit(key, append(optFns, SubValue(false))...)
 			keyLits = append(keyLits, k)
 			keyValues[k] = rv.MapIndex(key)
 		}
@@ -210,7 +212,7 @@ func (d *Dumper) ValueLit(in any, optFns ...ValueLitOptFn) string {
 
 			buf.WriteString(k)
 			buf.WriteString(":")
-			buf.WriteString(d.ValueLit(keyValues[k], optFns...))
+			buf.WriteString(d.ValueLit(keyValues[k], append(optFns, SubValue(false))...))
 			buf.WriteString(",")
 			buf.WriteString("\n")
 		}
